@@ -183,6 +183,20 @@ pub fn register(m: &mut HashMap<&'static str, OpFn>) {
             hex((ep + q).compress().as_bytes()),
             hex((ep - q).compress().as_bytes()),
             hex(EdwardsPoint::from(p).compress().as_bytes()),
+            // operator-assign forms (by reference and by value), scalar on the left, mul_assign
+            e({ let mut t = p; t += &q; t }),
+            e({ let mut t = p; t += q; t }),
+            e({ let mut t = p; t -= &q; t }),
+            e({ let mut t = p; t -= q; t }),
+            e(s * &p),
+            e(&p * &s),
+            e({ let mut t = p; t *= &s; t }),
+            e({ let mut t = p; t *= s; t }),
+            tb(bool::from(subtle::ConstantTimeEq::ct_eq(&p, &q))),
+            tb(p == q),
+            e(<SubgroupPoint as subtle::ConditionallySelectable>::conditional_select(&p, &q, subtle::Choice::from(0))),
+            e(<SubgroupPoint as subtle::ConditionallySelectable>::conditional_select(&p, &q, subtle::Choice::from(1))),
+            e({ let mut t = p; zeroize::Zeroize::zeroize(&mut t); t }),
         ]
     });
     m.insert("gp.rs_ops", |a| {
@@ -200,6 +214,10 @@ pub fn register(m: &mut HashMap<&'static str, OpFn>) {
             e(<RistrettoPoint as Group>::generator()),
             e(CofactorGroup::clear_cofactor(&p)),
             tb(bool::from(CofactorGroup::is_torsion_free(&p))),
+            match Option::<RistrettoPoint>::from(CofactorGroup::into_subgroup(p)) {
+                Some(x) => e(x),
+                None => "none".into(),
+            },
         ]
     });
 }
